@@ -107,6 +107,7 @@ func main() {
 	flag.Var(&merges, "merge", "function to merge")
 	flag.Parse()
 
+	os.Setenv("PATH", "/opt/veriftools/go1.26.8/bin:"+os.Getenv("PATH"))
 	t0 := time.Now()
 	conf := Config{Unwind: *unwind, MaxSteps: *maxSteps, MaxDepth: 400, MaxPaths: *maxPaths, MaxAlloc: 1 << 22,
 		MaxIteTable: 4096, MaxConcretize: 300, Workers: *workers, SolverKind: *solver, TimeoutMs: *timeout,
@@ -407,11 +408,17 @@ func findFunc(prog *ssa.Program, mainPkg *ssa.Package, name string) *ssa.Functio
 	return nil
 }
 
-// callMerged explores all paths of a side-effect-free callee locally and
-// merges the results into ite terms, so the caller continues as one path.
-func (e *Exec) callMerged(caller *frame, fn *ssa.Function, args []Value, env []Value) Value {
-	// only scalar results are merged
+// callMerged explores all syntactic paths of a side-effect-free callee without
+// solver queries and merges the results into ite terms guarded by the branch
+// conditions, so the caller continues as one path. Infeasible arms carry
+// unsatisfiable guards and are harmless. Any panic, abort or need for
+// concretisation inside the callee abandons the merge and falls back to an
+// ordinary (forking) call.
+func (e *Exec) callMerged(caller *frame, fn *ssa.Function, args []Value, env []Value) (result Value) {
 	res := fn.Signature.Results()
+	if res.Len() == 0 {
+		return e.callSSA(caller, fn, args, env)
+	}
 	for i := 0; i < res.Len(); i++ {
 		if _, ok := basicIntKind(res.At(i).Type()); !ok && !isBoolT(res.At(i).Type()) {
 			return e.callSSA(caller, fn, args, env)
@@ -429,10 +436,9 @@ func (e *Exec) callMerged(caller *frame, fn *ssa.Function, args []Value, env []V
 	if !symbolic {
 		return e.callSSA(caller, fn, args, env)
 	}
-	e.flushDecls()
 	nvars := len(e.ctx.vars)
-	sub := &Exec{eng: e.eng, ctx: e.ctx, solver: e.solver, globals: e.globals, onceDone: e.onceDone,
-		local: e.local, mergeDepth: 1, res: e.res, draws: e.draws, declared: e.declared, known: e.known, nextVar: e.nextVar}
+	sub := &Exec{eng: e.eng, ctx: e.ctx, solver: nil, globals: e.globals, onceDone: e.onceDone,
+		local: e.local, mergeDepth: 1, res: e.res, draws: e.draws, known: e.known, nextVar: e.nextVar}
 	type outcome struct {
 		guard *Term
 		val   Value
@@ -440,7 +446,8 @@ func (e *Exec) callMerged(caller *frame, fn *ssa.Function, args []Value, env []V
 	var outs []outcome
 	work := [][]int64{{}}
 	c := e.ctx
-	for len(work) > 0 {
+	failed := false
+	for len(work) > 0 && !failed {
 		prefix := work[len(work)-1]
 		work = work[:len(work)-1]
 		sub.prefix = prefix
@@ -450,35 +457,40 @@ func (e *Exec) callMerged(caller *frame, fn *ssa.Function, args []Value, env []V
 		sub.depth = e.depth
 		sub.steps = 0
 		sub.localWork = &work
-		e.solver.Push()
 		var val Value
 		func() {
 			defer func() {
 				if r := recover(); r != nil {
-					e.solver.Pop()
-					panic(r) // panics / aborts inside merged functions are not supported: propagate
+					switch r.(type) {
+					case goPanic, pathAbort:
+						failed = true
+					default:
+						panic(r)
+					}
 				}
 			}()
 			val = sub.callSSA(caller, fn, args, env)
 		}()
-		e.solver.Pop()
+		if failed {
+			break
+		}
 		g := c.tt
 		for _, t := range sub.pc {
 			g = c.And(g, t)
 		}
 		outs = append(outs, outcome{g, val})
-		if len(outs) > 256 {
-			e.unsupported(caller, "merge of %s: more than 256 paths", fn)
+		if len(outs) > 512 {
+			failed = true
 		}
 	}
-	if len(e.ctx.vars) != nvars {
-		e.unsupported(caller, "merge of %s: callee introduced solver variables", fn)
+	if failed || len(e.ctx.vars) != nvars {
+		e.ctx.vars = e.ctx.vars[:nvars]
+		return e.callSSA(caller, fn, args, env)
 	}
 	e.steps += 50
 	e.eng.mu.Lock()
 	e.eng.stats.Merged++
 	e.eng.mu.Unlock()
-	// combine
 	merge := func(get func(Value) *Term) *Term {
 		r := get(outs[len(outs)-1].val)
 		for i := len(outs) - 2; i >= 0; i-- {
